@@ -355,4 +355,4 @@ LEVEL_TEXT = ("composition lemma over C15/C01/C18/C19 plus contracts on dsutils.
               "(flags used for reading = flags used for writing, deflate padding) and on the Event accessors (decoded from exactly the "
               "request's bytes with the context's flags; raw bytes accessor).")
 LEVEL_NOTE = "level 'other': pydicom and zlib are assumed; one open known finding (encoded_dataset in chunked-receive mode)."
-TECHNIQUE = "deductive over an assumed codec: AST->VC symbolic execution of dsutils.encode/decode and the Event accessors with uninterpreted library operations"
+TECHNIQUE = 'deductive over an assumed codec: AST->VC symbolic execution of dsutils.encode/decode, the Event accessors, the fragmentation/reassembly loops and the chunked-receive branch of decode_msg with uninterpreted library operations; native bounded round trips through the real codec'
